@@ -34,6 +34,8 @@ type State struct {
 	Ret    []*Term
 	Trail  []string
 	TrailL []Lit
+	// ReadSeen: state locations read on this path
+	ReadSeen map[string]bool
 	// Log: ordered events (bounded)
 	Log []string
 	// FieldVal: symbolic values of scalar fields written on this path (only with Walker.trackFields)
@@ -61,6 +63,12 @@ func (s *State) clone() *State {
 	n.Trail = append([]string{}, s.Trail...)
 	n.TrailL = append([]Lit{}, s.TrailL...)
 	n.Log = append([]string{}, s.Log...)
+	if s.ReadSeen != nil {
+		n.ReadSeen = make(map[string]bool, len(s.ReadSeen))
+		for k := range s.ReadSeen {
+			n.ReadSeen[k] = true
+		}
+	}
 	if s.FieldVal != nil {
 		n.FieldVal = make(map[string]*Term, len(s.FieldVal))
 		for k, v := range s.FieldVal {
@@ -165,6 +173,7 @@ type Walker struct {
 	// trackFields: substitute reads of scalar state fields by the value last written on this path
 	trackFields bool
 	lvalue      bool
+	selfUpdated map[string]bool
 }
 
 type inlineCtx struct {
@@ -873,11 +882,20 @@ func (w *Walker) write(loc string, kind int, idx, val *Term, st *State, at ast.N
 		w.A.snap(site, st, nil, nil, val, idx)
 	}
 	applyKill(st, loc, kind, idx)
-	if w.trackFields && idx == nil && val != nil && !val.readsLoc(loc) {
+	if w.trackFields && idx == nil && val != nil {
 		if st.FieldVal == nil {
 			st.FieldVal = map[string]*Term{}
 		}
-		st.FieldVal[loc] = val
+		// a self-referential update (x = x + d) is kept relative to the entry value, once
+		if !val.readsLoc(loc) || !w.selfUpdated[loc] {
+			if val.readsLoc(loc) {
+				if w.selfUpdated == nil {
+					w.selfUpdated = map[string]bool{}
+				}
+				w.selfUpdated[loc] = true
+			}
+			st.FieldVal[loc] = val
+		}
 	}
 	if idx != nil && kind&(KillNNOwn|KillNNSender|KillNNOther|KillNNPrimary) != 0 && kind&KillAny == 0 {
 		st.F.add(Lit{mkAtom("nn", mkTerm(KIndex, "", mkTerm(KField, loc), idx), nil), true})
@@ -1414,6 +1432,14 @@ func (w *Walker) eval(e ast.Expr, st *State) []evalRes {
 			}
 			return out
 		case token.AND:
+			// the address of a local escapes: its value is no longer tracked
+			if id, ok := ast.Unparen(x.X).(*ast.Ident); ok {
+				if v, ok := w.info.Uses[id].(*types.Var); ok && !v.IsField() {
+					if _, tracked := st.Env[v]; tracked && v != w.Fn.RecvVar {
+						st.Env[v] = fresh("escaped_" + v.Name() + "_")
+					}
+				}
+			}
 			var out []evalRes
 			for _, r := range w.eval(x.X, st) {
 				if r.t == rootCtx || r.t == rootCfg || r.t == rootDbft {
@@ -1603,6 +1629,12 @@ func (w *Walker) selector(x *ast.SelectorExpr, st *State) []evalRes {
 		}
 		fv := sel.Obj().(*types.Var).Origin()
 		ft := w.fieldTerm(b.t, fv, x.Sel.Name)
+		if ft.K == KField && !w.lvalue {
+			if b.st.ReadSeen == nil {
+				b.st.ReadSeen = map[string]bool{}
+			}
+			b.st.ReadSeen[locOf(ft.Name)] = true
+		}
 		if w.trackFields && ft.K == KField && b.st.FieldVal != nil && !w.lvalue {
 			if v, ok := b.st.FieldVal[ft.Name]; ok {
 				ft = v
